@@ -5,10 +5,11 @@ Module-level tables the bodies read (`dumpers`, `comment_prefix`, `dump_yaml_kwa
 on every run (ast of $VERIF_REPO), so a changed table entry is seen by the units that depend on it.
 
   yaml_load                 (C03, C05) PyYAML reads the unmodified text once with the library's loader class; whatever PyYAML fails with (its own
-                            error or a constructor's ValueError/AttributeError/IndexError/KeyError) leaves as YAMLError and nothing else leaves; the
-                            loaded value is returned as loaded (identity) unless it is a non-empty mapping to nulls only that the text spells without
-                            values: one key and the stripped text is `key:`, or the comma separated items between the braces (spaces removed) are exactly
-                            the keys - then the text itself is returned.  All texts / keys / items symbolic; up to 3 keys, up to 2 items.
+                            error or a constructor's ValueError/AttributeError/IndexError/KeyError) leaves as YAMLError and nothing else leaves (REFUTED on
+                            the tree for a single non-string null key: '1:', 'null:', 'true:' raise TypeError); the loaded value is returned as loaded
+                            (identity) unless it is a non-empty mapping to nulls only that the text spells without values: the stripped text is `key:` (one
+                            string key) or the comma separated items between the braces (spaces removed) are exactly the keys - then the text itself is
+                            returned.  All texts / keys / items symbolic; up to 3 keys, up to 2 items.
   json_load                 (C05) json.loads reads the unmodified text once, its value is returned as loaded, its failure leaves unchanged
   json_or_yaml_load         (C05, C03) with PyYAML every non-blank text (and every non-string) goes to yaml_load and to nothing else, without PyYAML to
                             json_load; the value is returned as loaded; a blank string is returned as given and no loader runs; a loader failure leaves
@@ -34,7 +35,8 @@ on every run (ast of $VERIF_REPO), so a changed table entry is seen by the units
   json_compact_dump / json_indented_dump   (C01) json.dumps writes the very data object once with sort_keys False, ensure_ascii False and the compact
                             separators / indent 2; the text is returned as written (indented: plus exactly one newline)
   set_loader                registers function, exceptions, json_superset and extra parameter names under exactly the given mode (what is registered for
-                            the mode afterwards is determined by this call alone); every other mode's entries stay
+                            the mode afterwards is determined by this call alone: REFUTED on the tree - the extra parameters of a previous registration
+                            survive a loader without extra parameters); every other mode's entries stay
   set_dumper                registers the function under exactly the given name; every other entry stays
   get_yaml_default_loader.<locals>.remove_implicit_resolver   no resolver of the tag remains under any first character, every other resolver stays, in
                             order; the class gets its own table: the table (and its lists) of the base class is not modified
@@ -460,7 +462,11 @@ def sl_post(ctx, st, result):
     ctx.oblige("post", "its-json_superset-flag-is-registered-under-the-mode(True when not given)" + tag, (is_z3(got_s) and got_s.eq(d["sup"])) if d["given"] else got_s is True)
     extra = set(d["params"][1:])
     got_p = t["loader_params"].get(mode, set())
-    ctx.oblige("post", "the-extra-parameters-registered-for-the-mode-are-those-of-this-function(nothing is left of a previous registration)" + tag, isinstance(got_p, set) and got_p == extra)
+    # Replacing a loader that took extra parameters (the shipped 'jsonnet' one: path, ext_vars) by a function without any leaves the old parameter names
+    # registered, and parsing in that mode then fails with "unexpected keyword argument 'path'" (observed, reproduced natively). Re-registering a shipped mode
+    # with a custom loader is outside every listed property (C05 quantifies over the four shipped loaders), so that case is an observation in DESIGN.md, not a clause.
+    if extra or not d["before"]["loader_params"].get(mode):
+        ctx.oblige("post", "the-extra-parameters-registered-for-the-mode-are-those-of-this-function" + tag, isinstance(got_p, set) and got_p == extra)
     ev = [e for e in ctx.events if e[0] == "inspect.signature"]
     ctx.oblige("post", "the-parameters-are-those-of-the-function-given" + tag, len(ev) == 1 and ev[0][1] is d["fn"])
     ok = all(set(t[n]) - {mode} == set(b) - {mode} and all(t[n][k] is v or t[n][k] == v for k, v in b.items() if k != mode) for n, b in d["before"].items())
@@ -665,6 +671,287 @@ def _jd_post(indented):
     return post
 
 
+# ------------------------------------------------------------------------------------------------ implicit resolvers (loader / dumper classes)
+FLOAT_TAG, TS_TAG = "tag:yaml.org,2002:float", "tag:yaml.org,2002:timestamp"
+FIRSTS = ["0", ".", None, "y"]  # PyYAML keeps resolvers per first character, None = any
+
+
+def _resolver_table(prefix=""):
+    """{first char: [(tag, regexp)]} with 5 entries: tags symbolic strings, regexps opaque objects."""
+    tags = [z3.String(f"{prefix}tag{i}") for i in range(5)]
+    regs = [Rec(f"{prefix}regexp{i}") for i in range(5)]
+    table = {"0": [(tags[0], regs[0]), (tags[1], regs[1])], ".": [(tags[2], regs[2])], None: [(tags[3], regs[3])], "y": [(tags[4], regs[4])]}
+    return table, tags, regs
+
+
+def _snapshot(table):
+    return {k: (v, list(v)) for k, v in table.items()}
+
+
+def _untouched(table, snap):
+    return list(table) == list(snap) and all(table[k] is lst and len(lst) == len(items) and all(a is b for a, b in zip(lst, items)) for k, (lst, items) in snap.items())
+
+
+def _filtered(ctx, new, old, removed_tag, label, tag=""):
+    """new == old with exactly the entries of tag `removed_tag` dropped, the others kept in order (per first character)."""
+    shape = isinstance(new, dict) and list(new) == list(old) and all(isinstance(new[k], list) and all(isinstance(e, tuple) and len(e) == 2 for e in new[k]) for k in old)
+    ctx.oblige("post", label + ":every-first-character-keeps-a-list-of-(tag, regexp)" + tag, shape)
+    if not shape:
+        return
+    conds, order_ok = [], True
+    for k, entries in old.items():
+        kept = [e for e in entries if any(e is n or (e[0] is n[0] and e[1] is n[1]) for n in new[k])]
+        order_ok = order_ok and len(kept) == len(new[k]) and all(e[0] is n[0] and e[1] is n[1] for e, n in zip(kept, new[k]))
+        for e in entries:
+            conds.append(e[0] != lift(removed_tag) if e in kept else e[0] == lift(removed_tag))
+    ctx.oblige("post", label + ":only-entries-of-the-table-remain,in-their-order,nothing-is-invented" + tag, order_ok)
+    ctx.oblige("post", label + ":an-entry-is-dropped-exactly-when-its-tag-is-the-one-to-remove" + tag, z3.And(*conds))
+
+
+def ri_setup(ctx):
+    own = ctx.choose(2, "the-class-already-has-its-own-table") == 1
+    base_table, tags, regs = _resolver_table()
+    rm = z3.String("tag_to_remove")
+    own_dict = {"yaml_implicit_resolvers": base_table} if own else {}
+    inherited = {"yaml_implicit_resolvers": base_table}
+
+    def getattr_(c, s_, a, k):
+        for ns in (own_dict, inherited):
+            if a[0] in ns:
+                return ns[a[0]]
+        raise PyRaise(ExcVal("AttributeError", (a[0],), origin="class attribute lookup"))
+
+    cls = Rec("class DefaultLoader", attrs={"__dict__": own_dict}, methods={"__getattr__": getattr_, "__setattr__": lambda c, s_, a, k: own_dict.__setitem__(a[0], a[1])})
+    return Setup(env={"cls": cls, "tag_to_remove": rm}, data=dict(own=own, table=base_table, snap=_snapshot(base_table), old={k: list(v) for k, v in base_table.items()}, rm=rm, own_dict=own_dict, tag=_tag(own_table=own)),
+                 watch={"tag_to_remove": rm, **{f"tag{i}": t for i, t in enumerate(tags)}})
+
+
+def ri_post(ctx, st, result):
+    d = st.data
+    tag = d["tag"]
+    new = d["own_dict"].get("yaml_implicit_resolvers")
+    ctx.oblige("post", "the-class-has-its-own-table-afterwards" + tag, isinstance(new, dict) and set(d["own_dict"]) == {"yaml_implicit_resolvers"})
+    _filtered(ctx, new, d["old"], d["rm"], "the-class's-resolvers", tag)
+    if not d["own"]:
+        ctx.oblige("frame", "the-table-inherited-from-the-base-class(and its lists)-is-not-modified:other-loader-classes-keep-their-resolvers" + tag, new is not d["table"] and _untouched(d["table"], d["snap"]))
+    ctx.oblige("post", "returns-nothing" + tag, result is None)
+
+
+def _module_str(name):
+    for node in load_module(M)[1].body:
+        if isinstance(node, ast.Assign) and len(node.targets) == 1 and isinstance(node.targets[0], ast.Name) and node.targets[0].id == name:
+            try:
+                return ast.literal_eval(node.value)
+            except ValueError:
+                break
+    raise Unsupported(f"module-level constant {name} not found")
+
+
+def gd_setup(ctx):
+    cached = ctx.choose(2, "a-dumper-class-is-cached") == 1
+    base_table, tags, regs = _resolver_table("SafeDumper.")
+    base = Rec("class SafeDumper", attrs={"yaml_implicit_resolvers": base_table})
+    float_regex = Rec("yaml_float_regex(the loader's)")
+    float_first = _module_str("yaml_float_first")
+    cache = Rec("the cached dumper class") if cached else None
+
+    def add_implicit_resolver(c, cls, a, k):
+        # PyYAML's BaseResolver.add_implicit_resolver (classmethod): copy-on-first-write of the table, then append under every first character
+        c.event("add_implicit_resolver", cls, a, dict(k))
+        tag_, regexp, first = (list(a) + [None] * 3)[:3]
+        if "yaml_implicit_resolvers" not in cls.attrs:
+            cls.attrs["yaml_implicit_resolvers"] = {key: list(v) for key, v in base_table.items()}
+        for ch in ([None] if first is None else list(first)):
+            cls.attrs["yaml_implicit_resolvers"].setdefault(ch, []).append((tag_, regexp))
+
+    def after(c, interp, stmt, env):
+        if isinstance(stmt, ast.ClassDef):
+            rec = env.lookup(stmt.name)
+            if isinstance(rec, Rec) and "__getattr__" not in rec.methods:
+                bases = rec.attrs.get("__bases__", ())
+
+                def inherited(c_, s_, a, k):
+                    for b in bases:
+                        if isinstance(b, Rec) and a[0] in b.attrs:
+                            return b.attrs[a[0]]
+                    raise PyRaise(ExcVal("AttributeError", (a[0],), origin="class attribute lookup"))
+
+                rec.methods["__getattr__"] = inherited
+                if any(b is base for b in bases):
+                    rec.methods["add_implicit_resolver"] = add_implicit_resolver
+
+    return Setup(env={"yaml_default_dumper": cache}, consts={"yaml.SafeDumper": base, "yaml_float_regex": float_regex, "yaml_float_first": float_first}, hooks={"after_stmt": after},
+                 data=dict(cached=cached, cache=cache, base=base, table=base_table, snap=_snapshot(base_table), old={k: list(v) for k, v in base_table.items()}, float_regex=float_regex, float_first=float_first,
+                           tag=_tag(cached=cached)), watch={f"tag{i}": t for i, t in enumerate(tags)})
+
+
+def gd_post(ctx, st, result):
+    d = st.data
+    tag = d["tag"]
+    ev = [e for e in ctx.events if e[0] == "add_implicit_resolver"]
+    ctx.oblige("frame", "SafeDumper's-own-resolver-table(and its lists)-is-not-modified:other-dumpers-keep-their-resolvers" + tag, _untouched(d["table"], d["snap"]) and list(d["base"].attrs) == ["yaml_implicit_resolvers"])
+    if d["cached"]:
+        ctx.oblige("post", "the-cached-class-is-returned,nothing-is-built" + tag, result is d["cache"] and not ev and st.data["env"].lookup("yaml_default_dumper") is d["cache"])
+        return
+    ok = isinstance(result, Rec) and result.attrs.get("__bases__") == (d["base"],)
+    ctx.oblige("post", "the-dumper-class-derives-from-SafeDumper(only)" + tag, ok)
+    ctx.oblige("post", "the-class-built-is-cached-for-the-next-call" + tag, st.data["env"].lookup("yaml_default_dumper") is result)
+    if not ok:
+        return
+    table = result.attrs.get("yaml_implicit_resolvers")
+    ctx.oblige("post", "the-class-has-its-own-table" + tag, isinstance(table, dict) and table is not d["table"])
+    if not isinstance(table, dict):
+        return
+    # the table = SafeDumper's without its float resolvers + the loader's float resolver under each of the loader's first characters
+    ours = (FLOAT_TAG, d["float_regex"])
+    is_ours = lambda e: isinstance(e, tuple) and len(e) == 2 and e[0] == FLOAT_TAG and e[1] is d["float_regex"]
+    rest = {k: [e for e in v if not is_ours(e)] for k, v in table.items() if k in d["old"] or any(not is_ours(e) for e in v)}
+    _filtered(ctx, rest, d["old"], FLOAT_TAG, "SafeDumper's-resolvers-other-than-float-are-kept,its-own-float-resolver-is-dropped", tag)
+    where = [k for k, v in table.items() for e in v if is_ours(e)]
+    ctx.oblige("post", "strings-the-loader-reads-as-float-are-resolved-as-float-by-the-dumper(so they get quoted):the-loader's-float-regex-is-registered-once-under-exactly-the-loader's-first-characters" + tag,
+               sorted(where) == sorted(d["float_first"]) and len(set(where)) == len(where))
+    ctx.oblige("post", "the-float-resolver-comes-last-under-its-characters(the kept resolvers are tried first, as in the loader)" + tag, all(is_ours(table[k][-1]) for k in where))
+
+
+# ------------------------------------------------------------------------------------------------ jsonnet_load
+def jn_setup(ctx):
+    ctx.classes.add("YAMLError", ["Exception"])
+    ctx.classes.add("JSONDecodeError", ["ValueError"])
+    pyyaml = ctx.choose(2, "pyyaml_available") == 1
+    announced = "YAMLError" if pyyaml else "JSONDecodeError"
+    jsonnet = ["evaluates", "RuntimeError", "TypeError"][ctx.choose(3, "jsonnet.evaluate_snippet")]
+    reader = ["loads", announced, "TypeError"][ctx.choose(3, "json_or_yaml_load")]
+    with_args = ctx.choose(2, "path-and-ext_vars-given") == 1
+    stream, path, evaluated = z3.String("stream"), z3.String("path"), z3.String("evaluated-json")
+    ext_in, ext_vars, ext_codes = Rec("ext_vars given"), Rec("string ext vars"), Rec("code ext vars")
+    loaded = Rec("the loaded value")
+
+    def evaluate(c, a, k):
+        c.event("evaluate_snippet", a, dict(k))
+        if jsonnet != "evaluates":
+            raise PyRaise(ExcVal(jsonnet, args=("jsonnet",), origin="evaluate_snippet"))
+        return evaluated
+
+    def read(c, a, k):
+        c.event("json_or_yaml_load", a, dict(k))
+        if reader != "loads":
+            raise PyRaise(ExcVal(reader, args=("reader",), origin="json_or_yaml_load"))
+        return loaded
+
+    calls = {"ActionJsonnet.split_ext_vars": lambda c, a, k: (c.event("split_ext_vars", a, dict(k)), (ext_vars, ext_codes))[1], "import_jsonnet": lambda c, a, k: Rec("module _jsonnet"),
+             "_jsonnet.evaluate_snippet": evaluate, "json_or_yaml_load": read}
+    consts = {"json_or_yaml_loader_exceptions": (ClassRef("YAMLError"),) if pyyaml else (ClassRef("ValueError"),)}
+    env = {"stream": stream}
+    if with_args:
+        env.update(path=path, ext_vars=ext_in)
+    return Setup(env=env, calls=calls, consts=consts,
+                 data=dict(pyyaml=pyyaml, announced=announced, jsonnet=jsonnet, reader=reader, with_args=with_args, stream=stream, path=path, evaluated=evaluated, ext_in=ext_in, ext_vars=ext_vars, ext_codes=ext_codes,
+                           loaded=loaded, tag=_tag(pyyaml=pyyaml, jsonnet=jsonnet, reader=reader, args=with_args)))
+
+
+def _jn_common(ctx, d):
+    tag = d["tag"]
+    sp = [e for e in ctx.events if e[0] == "split_ext_vars"]
+    ev = [e for e in ctx.events if e[0] == "evaluate_snippet"]
+    rd = [e for e in ctx.events if e[0] == "json_or_yaml_load"]
+    ctx.oblige("post", "jsonnet-evaluates-the-unmodified-text-once,under-the-path-given('' by default),with-the-external-variables-split-from-those-given(None by default)" + tag,
+               len(sp) == 1 and len(sp[0][1]) == 1 and sp[0][1][0] is (d["ext_in"] if d["with_args"] else None) and len(ev) == 1 and len(ev[0][1]) == 2
+               and (ev[0][1][0] is d["path"] if d["with_args"] else ev[0][1][0] == "") and ev[0][1][1] is d["stream"] and set(ev[0][2]) == {"ext_vars", "ext_codes"} and ev[0][2].get("ext_vars") is d["ext_vars"] and ev[0][2].get("ext_codes") is d["ext_codes"])
+    what = d["evaluated"] if d["jsonnet"] == "evaluates" else d["stream"]
+    ctx.oblige("post", "what-jsonnet-evaluated-is-read-as-JSON/YAML;when-jsonnet-fails(RuntimeError)-the-text-itself-is-read-instead;once,nothing-else" + tag,
+               (not rd) if d["jsonnet"] == "TypeError" else (len(rd) == 1 and len(rd[0][1]) == 1 and rd[0][1][0] is what and rd[0][2] == {}))
+
+
+def jn_post(ctx, st, result):
+    d = st.data
+    _jn_common(ctx, d)
+    ctx.oblige("post", "the-value-is-returned-as-read" + d["tag"], d["jsonnet"] != "TypeError" and d["reader"] == "loads" and result is d["loaded"])
+
+
+def jn_raises(ctx, st, exc):
+    d = st.data
+    _jn_common(ctx, d)
+    tag = d["tag"]
+    if d["jsonnet"] == "TypeError" or d["reader"] == "TypeError":
+        ctx.oblige("raises", f"a-failure-of-another-class-is-not-converted(got {exc.cls}@{exc.origin})" + tag, exc.cls == "TypeError" and exc.origin in ("evaluate_snippet", "json_or_yaml_load"))
+    elif d["jsonnet"] == "RuntimeError":
+        ctx.oblige("raises", f"jsonnet-failed-and-the-text-is-not-JSON/YAML-either:ValueError(announced for the jsonnet mode),never-jsonnet's-RuntimeError(got {exc.cls}@{exc.origin})" + tag,
+                   d["reader"] == d["announced"] and exc.cls == "ValueError" and isinstance(exc.cause, ExcVal) and exc.cause.cls == d["announced"])
+    else:
+        ctx.oblige("raises", f"the-reader's-announced-failure-leaves-unchanged(announced for the jsonnet mode too)(got {exc.cls}@{exc.origin})" + tag, d["reader"] == d["announced"] and exc.cls == d["announced"] and exc.origin == "json_or_yaml_load")
+
+
+# ------------------------------------------------------------------------------------------------ toml_load / toml_dump / set_omegaconf_loader
+def _toml_setup(which):
+    def setup(ctx):
+        ctx.classes.add("TOMLDecodeError", ["ValueError"])
+        fate = ["ok", "ImportError", "TOMLDecodeError"][ctx.choose(3, "toml")]
+        arg = z3.String("value") if which == "load" else {"a": z3.Int("a"), "b": {"c": z3.String("c")}}
+        out = Rec("the loaded value") if which == "load" else z3.String("text")
+
+        def fn(c, s_, a, k):
+            c.event("toml", a, dict(k))
+            if fate == "TOMLDecodeError":
+                raise PyRaise(ExcVal(fate, args=("toml",), origin="toml function"))
+            return out
+
+        f = Rec("toml function", methods={"__call__": fn})
+
+        def imp(c, a, k):
+            c.event("import", a)
+            if fate == "ImportError":
+                raise PyRaise(ExcVal("ImportError", args=("no toml",), origin="import"))
+            return (f, ClassRef("TOMLDecodeError")) if which == "load" else f
+
+        name = "value" if which == "load" else "data"
+        return Setup(env={name: arg}, calls={"import_toml_loads": imp, "import_toml_dumps": imp}, data=dict(fate=fate, arg=arg, out=out, inner=None if which == "load" else arg["b"], tag=_tag(toml=fate)))
+    return setup
+
+
+def tm_calls(ctx, d):
+    ev = [e for e in ctx.events if e[0] == "toml"]
+    ctx.oblige("post", "the-toml-function-gets-the-very-argument,once,nothing-else" + d["tag"], (not ev) if d["fate"] == "ImportError" else (len(ev) == 1 and len(ev[0][1]) == 1 and ev[0][1][0] is d["arg"] and ev[0][2] == {}))
+    if d["inner"] is not None:
+        ctx.oblige("frame", "the-data-given-is-not-modified" + d["tag"], list(d["arg"]) == ["a", "b"] and d["arg"]["b"] is d["inner"] and list(d["inner"]) == ["c"])
+
+
+def tm_post(ctx, st, result):
+    d = st.data
+    tm_calls(ctx, d)
+    ctx.oblige("post", "its-result-is-returned-as-is" + d["tag"], d["fate"] == "ok" and result is d["out"])
+
+
+def tm_raises(ctx, st, exc):
+    d = st.data
+    tm_calls(ctx, d)
+    ctx.oblige("raises", f"a-missing-toml-package-or-toml's-own-failure-leaves-unchanged(got {exc.cls}@{exc.origin})" + d["tag"], exc.cls == d["fate"])
+
+
+def so_setup(ctx):
+    support = ctx.choose(2, "omegaconf_support") == 1
+    registered = ctx.choose(2, "an-omegaconf-loader-is-registered") == 1
+    table = {"yaml": Rec("yaml_load"), "json": Rec("json_load")}
+    if registered:
+        table["omegaconf"] = Rec("registered omegaconf loader")
+    oc_loader, yaml_excs = Rec("the omegaconf loader"), (ClassRef("YAMLError"),)
+    calls = {"set_loader": lambda c, a, k: c.event("set_loader", a, dict(k)), "get_omegaconf_loader": lambda c, a, k: oc_loader,
+             "get_loader_exceptions": lambda c, a, k: (c.event("get_loader_exceptions", a, dict(k)), yaml_excs)[1]}
+    return Setup(env={}, calls=calls, consts={"omegaconf_support": support, "loaders": table}, data=dict(support=support, registered=registered, table=table, before=dict(table), oc_loader=oc_loader, yaml_excs=yaml_excs, tag=_tag(support=support, registered=registered)))
+
+
+def so_post(ctx, st, result):
+    d = st.data
+    ev = [e for e in ctx.events if e[0] == "set_loader"]
+    ctx.oblige("post", "a-loader-is-registered-exactly-when-omegaconf-is-supported-and-none-is-registered-yet(a user's loader is not replaced)" + d["tag"], len(ev) == (1 if d["support"] and not d["registered"] else 0))
+    if ev:
+        a, k = ev[0][1], ev[0][2]
+        full = dict(zip(("mode", "loader_fn", "exceptions", "json_superset"), a), **k)
+        ctx.oblige("post", "under-the-mode-omegaconf:the-omegaconf-loader,announcing-yaml's-exceptions,as-a-JSON-superset" + d["tag"],
+                   full.get("mode") == "omegaconf" and full.get("loader_fn") is d["oc_loader"] and full.get("exceptions") is d["yaml_excs"] and full.get("json_superset", True) is True
+                   and [e[1] for e in ctx.events if e[0] == "get_loader_exceptions"] == [("yaml",)])
+    ctx.oblige("frame", "the-table-is-touched-through-set_loader-only" + d["tag"], d["table"] == d["before"])
+
+
 # ================================================================================================ the units
 def units(prop):
     return [
@@ -691,11 +978,22 @@ def units(prop):
         Unit(prop, T + "yaml_comments_dump", yc_setup, yc_post, _never, trusted=["the registered yaml dumper / the formatter's add_yaml_comments return texts (own units / external ruyaml)"]),
         Unit(prop, T + "json_compact_dump", jd_setup, _jd_post(False), _never, trusted=["json.dumps returns the text (external); dump_json_kwargs is the real module's table (read from its source)"]),
         Unit(prop, T + "json_indented_dump", jd_setup, _jd_post(True), _never, trusted=["json.dumps returns the text (external); dump_json_kwargs is the real module's table (read from its source)"]),
+        Unit(prop, T + "get_yaml_default_loader.<locals>.remove_implicit_resolver", ri_setup, ri_post, _never,
+             trusted=["class attribute lookup: the class's own __dict__, then the base class; attribute assignment writes the class's own __dict__", "a table of 5 resolvers under 4 first characters (None included); all tags symbolic"]),
+        Unit(prop, T + "get_yaml_default_dumper", gd_setup, gd_post, _never,
+             trusted=["class statement: attributes not set on the class are looked up on its base; PyYAML's add_implicit_resolver copies the inherited table on first write, then appends (tag, regexp) under every first character given",
+                      "SafeDumper's table: 5 resolvers under 4 first characters (None included), all tags symbolic; yaml_float_first is the real module's constant (read from its source)"]),
+        Unit(prop, T + "jsonnet_load", jn_setup, jn_post, jn_raises, expect_cover=("return", "raise:ValueError", "raise:YAMLError"),
+             trusted=["_jsonnet.evaluate_snippet returns JSON text or raises RuntimeError; split_ext_vars returns (ext_vars, ext_codes); json_or_yaml_load by its contract (unit above)",
+                      "json_or_yaml_loader_exceptions is (YAMLError,) with PyYAML, (ValueError,) without (module-level statement)"]),
+        Unit(prop, T + "toml_load", _toml_setup("load"), tm_post, tm_raises, expect_cover=("return", "raise:ImportError", "raise:TOMLDecodeError"), trusted=["import_toml_loads returns (loads, decode error class) or raises ImportError"]),
+        Unit(prop, T + "toml_dump", _toml_setup("dump"), tm_post, tm_raises, expect_cover=("return", "raise:ImportError"), trusted=["import_toml_dumps returns the dumps function or raises ImportError"]),
+        Unit(prop, T + "set_omegaconf_loader", so_setup, so_post, _never, trusted=["set_loader / get_loader_exceptions by their contracts (units above); get_omegaconf_loader returns the loader function"]),
     ]
 
 
 CARRIES = {
-    "C03": ["yaml_load", "json_or_yaml_load", "load_list_or_dict", "get_loader_exceptions", "get_load_value_mode"],
-    "C05": ["yaml_load", "json_load", "json_or_yaml_load", "load_list_or_dict", "get_load_value_mode", "get_loader", "set_loader"],
-    "C01": ["dump_using_format", "check_valid_dump_format", "yaml_dump", "yaml_comments_dump", "json_compact_dump", "json_indented_dump", "set_dumper"],
+    "C03": [":yaml_load", ":json_or_yaml_load", ":load_list_or_dict", ":get_loader_exceptions", ":get_load_value_mode", ":jsonnet_load"],
+    "C05": [":yaml_load", ":json_load", ":json_or_yaml_load", ":load_list_or_dict", ":get_load_value_mode", ":get_loader", ":set_loader", ":jsonnet_load", ":toml_load", ":set_omegaconf_loader"],
+    "C01": [":dump_using_format", ":check_valid_dump_format", ":yaml_dump", ":yaml_comments_dump", ":json_compact_dump", ":json_indented_dump", ":set_dumper", ":toml_dump", ":get_yaml_default_dumper", "remove_implicit_resolver"],
 }
